@@ -911,6 +911,15 @@ class TaskGroup(abc.TaskGroup):
         if sys.version_info >= (3, 14) and self.cancel_scope._host_task is not None:
             asyncio.future_add_to_awaited_by(task, self.cancel_scope._host_task)
 
+        # If the task group has already been (effectively) cancelled but the delivery of
+        # that cancellation has gone idle (e.g. because the host task is in a shielded
+        # scope), restart it so that the new task gets cancelled too
+        if self.cancel_scope._cancel_called:
+            if self.cancel_scope._cancel_handle is None:
+                self.cancel_scope._deliver_cancellation(self.cancel_scope)
+        elif not self.cancel_scope._shield:
+            self.cancel_scope._restart_cancellation_in_parent()
+
         task.add_done_callback(task_done)
         return handle
 
